@@ -20,7 +20,7 @@ LEVEL_TEXT = ('Exploration: documents rendered from an abstract model into the p
               'by the Base/Safe/Full/Unsafe loader pairs (ref.bisim signatures, documents delivered before an error, exception '
               'class); documents exactly on the simple-key length limit (every key spelling, 1019-1029 and 126-129 characters) and short-read '
               'stream deliveries are included; the four malformed classes named by the property are planted at model level and must give the same, '
-              'expected, error class. Thorough repeats the C side under the ASan+UBSan glue.')
+              'expected, error class. Thorough repeats the C side under the ASan+UBSan glue.' + " Every unusual character is also placed at every lexically decisive position (line start, key start, value start and end, alone, flow and nested block context) of both dumpers' output under every style.")
 LEVEL_NOTE = ('Held on the documents generated. The portable subset is the one listed in DESIGN.md (C06); a divergence inside it '
               'is reported, never waved through.')
 TECHNIQUE = 'runtime monitoring: three-way differential oracle (Python back-end, LibYAML back-end, events known by construction) over generated documents and dumper outputs'
